@@ -882,6 +882,25 @@ Proof.
   eapply keeps_trans; [apply IH|apply Hround].
 Qed.
 
+Lemma op_ready_try_keeps x p : keeps p (op_ready_try g x p).
+Proof.
+  unfold op_ready_try. destruct (op_ready g x p) as [p'|] eqn:E; [|apply keeps_refl].
+  apply (op_ready_keeps x p p' E).
+Qed.
+
+Lemma rescan_round_keeps deps rd : forall k p, keeps p (Nat.iter k (rescan_round g deps rd) p).
+Proof.
+  assert (Hr1 : forall l p, keeps p (fold_left (fun a x => op_ready_try g x a) l p)).
+  { induction l as [|x l IH]; intros p; cbn [fold_left]; [apply keeps_refl|].
+    eapply keeps_trans; [apply (op_ready_try_keeps x p)|apply IH]. }
+  assert (Hr2 : forall l p, keeps p (fold_left (fun a x => op_rescan g x a) l p)).
+  { induction l as [|x l IH]; intros p; cbn [fold_left]; [apply keeps_refl|].
+    eapply keeps_trans; [apply (op_rescan_keeps x p)|apply IH]. }
+  induction k as [|k IH]; intros p; cbn [Nat.iter]; [apply keeps_refl|].
+  eapply keeps_trans; [apply IH|]. unfold rescan_round.
+  eapply keeps_trans; [apply Hr1|apply Hr2].
+Qed.
+
 Lemma apply_load_cases e p p5 walk : apply_load g loads e p = Ok (p5, walk) ->
   (bound g p e = [] /\ p5 = p /\ walk = []) \/
   (bound g p e <> [] /\ keeps p p5 /\
@@ -894,8 +913,9 @@ Proof.
   - destruct (loads e) as [L|]; [|discriminate].
     set (p1 := set_loaded p _).
     destruct (fold_opt (op_dirty g (dependents g p1 e)) (ld_dirty L) p1) as [p2|] eqn:E2; [|discriminate].
-    destruct (fold_opt (op_ready g) (ld_ready L) p2) as [p3|] eqn:E3; [|discriminate].
-    set (p4 := Nat.iter _ _ p3).
+    destruct (forallb (ready_pre g p2) (ld_ready L)) eqn:E3; [|discriminate].
+    set (p4 := Nat.iter _ _ p2).
+    destruct (forallb (p_oready p4) (ld_ready L)) eqn:E4; [|discriminate].
     destruct (fold_opt (op_add g) (ld_added L) p4) as [p5'|] eqn:E5; [|discriminate].
     cbn [negb orb].
     destruct (chk_evol g L p p5' && chk_closed g p5' && chk_sched g p5' && chk_oclosed g p5'
@@ -909,8 +929,7 @@ Proof.
         - unfold p1. psimpl. rewrite H. apply orb_true_r.
         - split; reflexivity. }
       eapply keeps_trans; [exact K1|]. eapply keeps_trans; [apply (fold_opt_keeps _ (op_dirty_keeps _) _ _ _ E2)|].
-      eapply keeps_trans; [apply (fold_opt_keeps _ op_ready_keeps _ _ _ E3)|].
-      eapply keeps_trans; [apply rescan_keeps|]. apply (fold_opt_keeps _ op_add_keeps _ _ _ E5).
+      eapply keeps_trans; [apply rescan_round_keeps|]. apply (fold_opt_keeps _ op_add_keeps _ _ _ E5).
     + exists L. repeat split; assumption.
 Qed.
 
@@ -2960,7 +2979,8 @@ Lemma apply_load_not_fuel e p : apply_load g loads e p <> OutOfFuel.
 Proof.
   unfold apply_load, apply_load_gen. destruct (bound g p e); [discriminate|]. destruct (loads e) as [L|]; [|discriminate].
   match goal with |- match ?X with _ => _ end <> _ => destruct X; [|discriminate] end.
-  match goal with |- match ?X with _ => _ end <> _ => destruct X; [|discriminate] end.
+  match goal with |- (if ?X then _ else _) <> _ => destruct X; [|discriminate] end.
+  match goal with |- (if ?X then _ else _) <> _ => destruct X; [|discriminate] end.
   match goal with |- match ?X with _ => _ end <> _ => destruct X; [|discriminate] end.
   match goal with |- (if ?X then _ else _) <> _ => destruct X; discriminate end.
 Qed.
